@@ -306,7 +306,9 @@ def main():
   tier = sys.argv[1] if len(sys.argv) > 1 else 'quick'
   chk = Check('C18', tier)
   items = []
-  def add(**kw): items.append(dict(name='/'.join(f"{k}={v}" for k, v in kw.items()), **kw))
+  def add(**kw):
+    assert not (kw.get('nports', 1) > 1 and kw.get('stalls')), 'two ports are only specified for equal timing (no stalls)'
+    items.append(dict(name='/'.join(f"{k}={v}" for k, v in kw.items()), **kw))
   if tier == 'quick':
     add(family='rw', nreq=2, lat=1, nports=1, sink_delay=0, stalls=True)
     add(family='rw', nreq=2, lat=0, nports=1, sink_delay=2, stalls=False)
@@ -334,7 +336,7 @@ def main():
     add(family='w', nreq=4, lat=2, nports=1, sink_delay=3, stalls=True, len0=True, stall_budget=2)
     add(family='rw', nreq=2, lat=1, nports=2, sink_delay=0, stalls=False, variant='rtl', dws=[32, 64], len0=True)
     add(family='amo_arith', nreq=1, lat=0, nports=2, sink_delay=1, stalls=False, variant='rtl', dws=[64, 32])
-    add(family='rw', nreq=1, lat=0, nports=2, sink_delay=1, stalls=True, dws=[64, 16])
+    add(family='rw', nreq=1, lat=0, nports=2, sink_delay=3, stalls=False, dws=[64, 16])      # (two ports only with equal timing: with stalls the processing order depends on the stall pattern, which the sequential oracle does not model)
     add(family='amo_minmax', nreq=1, lat=1, nports=2, sink_delay=0, stalls=False, dws=[16, 64])
     for fam in MS.FAMILIES:
       for lat in (0, 1, 3):
